@@ -106,7 +106,7 @@ claim('C08', 'kani+verus',
       'Branches to labels (b, b.cond, cbz/cbnz, tbz/tbnz, adr; resolve_jumps incl. the out-of-range fallbacks) are proved in Verus for ALL distances over the class-encoder contracts. Six genuine defects were found and repaired (fix: commits). '
       'Quick tier: 266 rows + 10 private rows + the Verus unit; the bounded label rows and the 11 slow multi-instruction helpers are EXECUTED on the real crate with seeded operands (sampled, not counted as proved) and proved in the thorough tier.',
       'Trusted: Kani/CBMC, Verus/Z3, the reference decoder + request table (oracle; 0 disagreements with llvm-mc on 3343 sampled words), debug-build arithmetic. '
-      'Not covered: pkgs/boots/assembler/arm64.dora, callers in masm/arm64.rs; 5 mem-helper rows are decided only in the thorough tier on an idle machine (10-15 GB each).',
+      'Not covered: pkgs/boots/assembler/arm64.dora, callers in masm/arm64.rs. The 11 multi-instruction helper rows need 15-17 GB and 13-16 min each: thorough tier only (all hold).',
       'DESIGN.md §4 C08, §9')
 
 NA_REASONS = {
